@@ -25,6 +25,13 @@ TimeoutCands == {t \in [round : Win(-1, 1), author : Node \ {Me}, hq : Recent] :
 TCCands      == {[round |-> r, hqr |-> h] : r \in Win(-1, 1), h \in 0..MaxRound}
 
 Pick(S) == RandomElement(S)
+\* What the environment certifies in front of the node is not only the parent of every block it shows: a timeout carries a QC for its
+\* `hq`, and a vote of the environment is a step towards a QC for the block voted.  The assumption EnvSafe (C02) has to hold for all of
+\* them together -- an environment that certifies two blocks of one round through a proposal and a timeout is not one that <= f Byzantine
+\* authorities can build.  (Found by the thorough tier: stakes 2,1,2,2, depth 40 -- a conflicting commit built from a timeout's QC.)
+EnvShown == {trace[i].hq  : i \in {j \in 1..Len(trace) : trace[j].a = "Timeout"}} \cup
+            {trace[i].blk : i \in {j \in 1..Len(trace) : trace[j].a = "Vote" /\ "forged" \notin DOMAIN trace[j]}}
+SafeWith(S, X) == UseEnvSafe => EnvSafeC(Cert(Shown(Me) \cup S) \cup EnvShown \cup X)
 
 SimProposal ==
   /\ Win(-1, 2) # {}
@@ -36,7 +43,7 @@ SimProposal ==
           /\ p.blk \notin ns[Me].stored
           /\ (Weird \/ Rnd(par) < r)
           /\ p \notin ns[Me].parked /\ p \notin ns[Me].pwait
-          /\ (UseEnvSafe => EnvSafe(Shown(Me) \cup {p.blk}))
+          /\ SafeWith({p.blk}, {})
           /\ Publish(Me, HandleProposal(ns[Me], p, TRUE), PCause(p))
           /\ trace' = Append(trace, [a |-> "Proposal", blk |-> p.blk, tc |-> p.tc])
 \* a proposal whose QC is a look-alike of QC::genesis() (round 0, no votes) naming a block the node has stored: it must be rejected, so the
@@ -56,11 +63,13 @@ SimForgedVote ==
 SimVote ==
   /\ UseVotes /\ VoteCands # {}
   /\ \E v \in {Pick(VoteCands)} :
+       /\ SafeWith({}, {v.blk})
        /\ Publish(Me, HandleVote(ns[Me], v), NoCause)
        /\ trace' = Append(trace, [a |-> "Vote", blk |-> v.blk, author |-> v.author])
 SimTimeout ==
   /\ UseTimeouts /\ TimeoutCands # {}
   /\ \E t \in {Pick(TimeoutCands)} :
+       /\ SafeWith({}, {t.hq})
        /\ Publish(Me, HandleTimeout(ns[Me], t), [NoCause EXCEPT !.certs = {Rnd(t.hq)}])
        /\ trace' = Append(trace, [a |-> "Timeout", round |-> t.round, author |-> t.author, hq |-> t.hq])
 SimTC ==
